@@ -172,6 +172,26 @@ def check_detach(ctx):
   ix = ctx.ix
   f = ix.func("ttconv.model:ContentElement.set_doc")
   ctx.unit(f.module)
+  # by interpretation on a sample subtree (every element owned by a document and referencing one of its regions)
+  from ..consteval import NotConst as _NC, Raised as _R, Sym as _Sym
+  from ..rules.minieval import MiniEval, Node
+  D, R = _Sym("document"), _Sym("region")
+  mk = lambda kind, name, ch=(): Node(kind, name, ch, _doc=D, _region=R)
+  tree = mk("Div", "div", [mk("P", "p1", [mk("Span", "s1", [mk("Span", "s2"), mk("Br", "br")])]), mk("P", "p2")])
+  me = MiniEval(ix, node_methods={"is_attached": lambda n_: n_.fields.get("_doc") is not None, "get_doc": lambda n_: n_.fields.get("_doc")})
+  try:
+    me.call(f, [tree, None])
+    left = [n_.name for n_ in tree.walk() if n_.fields.get("_doc") is not None or n_.fields.get("_region") is not None]
+    ctx.check(not left, "PAIR-detach", f"{f.qualname}|detaching clears the region reference of every element of the subtree", ctx.where(f.module, f.node),
+              "interpreted on a sample subtree: set_doc(None) leaves no element with a document or a region reference",
+              f"interpreted on a sample subtree, set_doc(None) leaves {left} with a document or region reference: a detached descendant keeps referencing a region of its "
+              "former document and carries it into the next document")
+    return
+  except _R:
+    ctx.bad("PAIR-detach", f"{f.qualname}|detaching clears the region reference of every element of the subtree", ctx.where(f.module, f.node), "interpreted on a sample subtree, set_doc(None) raises")
+    return
+  except _NC:
+    pass
   docp = f.params[1]
   ok = False
   why = "no loop over the subtree writes _doc"
@@ -257,11 +277,20 @@ def check_registry(ctx, mf):
       continue
     n += 1
     ctx.unit(m.module)
-    repoint = False
-    for loop in own_nodes(m.node):
-      if isinstance(loop, ast.For) and "dfs_iterator()" in unparse(loop.iter):
-        if any(isinstance(x, ast.Call) and isinstance(x.func, ast.Attribute) and x.func.attr == "set_region" for x in own_nodes(loop)):
-          repoint = True
+    def walks_and_repoints(g, depth=0):
+      for loop in own_nodes(g.node):
+        if isinstance(loop, ast.For) and "dfs_iterator()" in unparse(loop.iter):
+          if any(isinstance(x, ast.Call) and isinstance(x.func, ast.Attribute) and x.func.attr == "set_region" for x in own_nodes(loop)):
+            return True
+      if depth < 2:
+        # a helper of the module that receives the body
+        for c in own_nodes(g.node):
+          if isinstance(c, ast.Call) and any("_body" in unparse(a) or "get_body()" in unparse(a) or (isinstance(a, ast.Name) and a.id == "body") for a in c.args):
+            r = ix.resolve(g.module, c.func, cls=g.cls, func=g)
+            if hasattr(r, "node") and hasattr(r, "params") and r.module is g.module and r is not g and walks_and_repoints(r, depth + 1):
+              return True
+      return False
+    repoint = walks_and_repoints(m)
     ctx.check(repoint, "REG-repoint", f"{m.qualname}|registry-write", ctx.where(m.module, writes[0]),
               "the function walks the body and re-points / clears region references",
               f"{m.short} changes the region registry (`{short(writes[0], 60)}`) without walking the body to re-point or clear the "
